@@ -10,7 +10,7 @@ fk in FAULTS.  `to_ast` turns a shape into refint AST statements framed by probe
 """
 import itertools
 
-CONDS = ["true", "false", "K==1", "K%2==0", "K<2", "p==1"]
+CONDS = ["true", "false", "K==1", "K%2==0", "K<2", "p==1", "!(K==1)", "K==1&&p<2", "K==1||p==2", "K>=1", "K!=1", "(\"s\"+K)==\"s1\"", "bf(K)"]
 D_COND = 2
 WHILE_N = [0, 1, 2, 3]
 D_N = 2
@@ -22,7 +22,7 @@ D_COUNTER = "fresh"
 FAULTS = ["assert", "div", "idx"]
 D_FAULT = "div"
 
-LEAF_KINDS = ("plain", "call", "break", "continue", "return", "fault", "store")
+LEAF_KINDS = ("plain", "call", "break", "continue", "return", "fault", "store", "defcall")
 
 
 def leaves(in_loop, simple=False):
@@ -30,7 +30,7 @@ def leaves(in_loop, simple=False):
     if in_loop:
         out += [("break",), ("continue",)]
     if not simple:
-        out += [("fault", D_FAULT), ("call",), ("store",)]
+        out += [("fault", D_FAULT), ("call",), ("store",), ("defcall",)]
     return out
 
 
@@ -163,9 +163,16 @@ def var(n):
 
 def cond_ast(c, K):
     k = var(K)
+    p = var("p")
     return [("bool", True), ("bool", False), ("bin", "==", k, ("int", 1)),
             ("bin", "==", ("bin", "%", k, ("int", 2)), ("int", 0)), ("bin", "<", k, ("int", 2)),
-            ("bin", "==", var("p"), ("int", 1))][c]
+            ("bin", "==", p, ("int", 1)),
+            ("not", ("bin", "==", k, ("int", 1))),
+            ("bin", "&&", ("bin", "==", k, ("int", 1)), ("bin", "<", p, ("int", 2))),
+            ("bin", "||", ("bin", "==", k, ("int", 1)), ("bin", "==", p, ("int", 2))),
+            ("bin", ">=", k, ("int", 1)), ("bin", "!=", k, ("int", 1)),
+            ("bin", "==", ("bin", "+", ("str", "s"), k), ("str", "s1")),
+            ("call", var("bf"), [k])][c]
 
 
 def probe(ctx, counters):
@@ -189,6 +196,13 @@ def stmts(ctx, s, counters, K, depth, can_return=True):
         return [("assign", "acc", ("bin", "+", var("acc"), ("int", 1)), None, ())]
     if k == "call":
         return [("assign", "acc", ("call", var("g"), [var(K)]), None, ())]
+    if k == "defcall":
+        u = ctx.next_uid()
+        # a function defined inside the block (no captures) and called there, recursing once
+        h = ("fn", [("a", "int"), ("d", "int")], "int",
+             [("if", ("bin", ">", var("d"), ("int", 0)), [("return", ("bin", "+", ("selfcall", [var("a"), ("bin", "-", var("d"), ("int", 1))]), ("int", 10)))], None),
+              ("return", ("bin", "*", var("a"), ("int", 2)))])
+        return [("assign", f"h{u}", h, None, ()), ("assign", "acc", ("call", var(f"h{u}"), [var(K), ("int", 1)]), None, ())]
     if k == "store":
         # a store through a path (list element) with a simple value: value parked in a temporary of the current block
         return [("setindex", var("lst"), ("int", 0), var(K)), ("setfield", var("box"), "v", var(K)),
@@ -267,6 +281,10 @@ HELPER_G = ("assign", "g", ("fn", [("x", "int")], "int",
                             [("print", ("bin", "+", ("str", "g "), ("var", "x"))),
                              ("return", ("bin", "+", ("var", "x"), ("int", 1)))]), None, ())
 
+HELPER_BF = ("assign", "bf", ("fn", [("x", "int")], "bool",
+                             [("print", ("bin", "+", ("str", "bf "), ("var", "x"))),
+                              ("return", ("bin", "==", ("var", "x"), ("int", 1)))]), None, ())
+
 BOX = ("class", "Bx", [("v", "int")], ([("v", "int")], [("setfield", ("var", "self"), "v", ("var", "v"))]), [])
 
 COLL = ["c0", "c1", "c2", "c3", "c4", "c5"]
@@ -285,7 +303,7 @@ def function_program(shape, variant="fn"):
         body = block(ctx, shape, counters0, "p", 0, can_return=False)
         tail = [("print", ("bin", "+", ("bin", "+", ("str", "end "), var("acc")),
                            ("bin", "+", ("str", " "), var("c0"))))]
-        return [BOX, HELPER_G, ("assign", "p", ("int", 1), None, ())] + pre + body + tail
+        return [BOX, HELPER_G, HELPER_BF, ("assign", "p", ("int", 1), None, ())] + pre + body + tail
     body = pre + block(ctx, shape, counters0, "p", 0)
     tail = [("print", ("bin", "+", ("bin", "+", ("bin", "+", ("str", "end "), var("acc")), ("str", " ")),
                        ("bin", "+", ("bin", "+", var("c0"), ("str", " ")), var("c1")))),
@@ -296,7 +314,7 @@ def function_program(shape, variant="fn"):
                 ("print", ("bin", "+", ("str", "r "), var("r")))], None)
         f = ("assign", "f", ("fn", [("p", "int"), ("d", "int")], "int", [rec] + body + tail), None, ())
         calls = [("print", ("call", var("f"), [("int", pv), ("int", 1)])) for pv in (1, 2)]
-        return [BOX, HELPER_G, f] + calls
+        return [BOX, HELPER_G, HELPER_BF, f] + calls
     f = ("assign", "f", ("fn", [("p", "int")], "int", body + tail), None, ())
     calls = [("print", ("call", var("f"), [("int", pv)])) for pv in (0, 1, 2)]
-    return [BOX, HELPER_G, f] + calls
+    return [BOX, HELPER_G, HELPER_BF, f] + calls
